@@ -57,8 +57,18 @@ def encode(d):
     return {k: ("None" if v is None else v) for k, v in d.items()}
 
 
+# duration/resolution pairs whose float quotient lands one ulp below an integer: the histogram
+# length int(duration/resolution) is one less than the "obvious" value, and any other way of
+# computing it (duration*rate, round, ceil) disagrees exactly here
+UNLUCKY = [(0.7, 0.001), (0.35, 0.002), (0.3, 0.1), (0.6, 0.1), (0.15, 0.05), (0.6, 0.2), (0.07, 0.0001)]
+UNLUCKY = [(a, b) for (a, b) in UNLUCKY if int(a / b) != round(a / b) and int(a / b) <= 800]
+
+
 def draw_timing(rng):
     c = float(np.round(rng.uniform(330.0, 350.0), 2))
+    if rng.random() < 0.35 and UNLUCKY:
+        dur, dt = UNLUCKY[int(rng.integers(0, len(UNLUCKY)))]
+        return c, dt, dur, int(dur / dt)
     n = int(rng.integers(6, 30))
     dt = float(np.round(rng.uniform(0.0005, 0.004), 6))
     dur = (n + 0.5) * dt
